@@ -51,9 +51,15 @@ func testC12(t *testing.T, redisMode bool) {
 	checkProp(t, "C12", col, func(c *caseCtx) {
 		rt := c.rt
 		instances := 1
+		otherProcess := false
 		if redisMode {
 			instances = rapid.IntRange(1, 3).Draw(rt, "server_instances")
 			l1Deploy = cluster.Options{Redis: true, Instances: instances}
+			if instances > 1 && rapid.Bool().Draw(rt, "one_in_another_process") {
+				// one of the instances is a child process (own table of local locks, own package state)
+				l1Deploy = cluster.Options{Redis: true, Instances: instances - 1, RemoteInstances: 1}
+				otherProcess = true
+			}
 		}
 		nk := rapid.IntRange(1, 3).Draw(rt, "keys")
 		var kinds []sim.Kind
@@ -265,6 +271,9 @@ func testC12(t *testing.T, redisMode bool) {
 		var labels []string
 		if redisMode {
 			labels = append(labels, fmt.Sprintf("server-instances=%d", instances))
+			if otherProcess {
+				labels = append(labels, "one-instance-in-another-process")
+			}
 			contended := 0
 			for _, rc := range w.env.Redis.CommandLog() {
 				if rc.Name == "SET" && rc.Result == "nil" {
@@ -332,11 +341,13 @@ func TestC12Independence(t *testing.T) {
 		idseed := rapid.Uint64Range(1, 1<<40).Draw(rt, "idseed")
 		// a third of the cases each: local locks, the Redis lock on one instance, the Redis lock on two instances
 		dep := "deployment=one-instance+local-lock"
-		switch rapid.IntRange(0, 2).Draw(rt, "deployment") {
+		switch rapid.IntRange(0, 3).Draw(rt, "deployment") {
 		case 1:
 			l1Deploy, dep = cluster.Options{Redis: true}, "deployment=one-instance+redis-lock"
 		case 2:
 			l1Deploy, dep = cluster.Options{Redis: true, Instances: 2}, "deployment=two-instances+redis-lock"
+		case 3:
+			l1Deploy, dep = cluster.Options{Redis: true, RemoteInstances: 1}, "deployment=two-processes+redis-lock"
 		}
 		w, err := newL1World(idseed, kinds)
 		if err != nil {
